@@ -295,7 +295,9 @@ def check(col, prog, tier, profile, fixture=None):
         col.ok("A1" + sfx, ft.loc(), "%s|expected-impure" % fk(ft), "from_time reads the clock (the only impure constructor, by design)", nontrivial=False)
 
     # ---------------- A2: the provided method and every override of it in an impl of Rand
-    shuffles = [shuffle] + [b_ for b_ in crate.bodies if not b_.is_closure and b_.name == "shuffle" and b_.key != shuffle.key and str((crate.impl_of(b_) or {}).get("trait") or "").endswith("Rand")]
+    # every `shuffle` of the crate: overrides in impls of Rand, and inherent methods of the generator types too (an inherent
+    # `impl Rng { pub fn shuffle(..) }` wins over the trait method for a direct `rng.shuffle(&mut v)`)
+    shuffles = [shuffle] + [b_ for b_ in crate.bodies if not b_.is_closure and b_.name == "shuffle" and b_.key != shuffle.key and b_.kind in ("AssocFn", "Fn") and (str((crate.impl_of(b_) or {}).get("trait") or "").endswith("Rand") or not (crate.impl_of(b_) or {}).get("of_trait"))]
     default_shuffle = shuffle
     free_helpers = [f_ for f_ in crate.bodies if not f_.is_closure and f_.kind == "Fn" and f_.container is None and f_.vis != "pub" and not util.self_recursive(f_)]
     for shuffle in shuffles:
@@ -432,7 +434,17 @@ def check(col, prog, tier, profile, fixture=None):
             col.ok("A5" + sfx, nextraw.loc(), key, "the output mixes high state bits into low output bits")
 
 
-def rule_lcg(col, rand_crate, rid, consts_from=None):
+def _potency(a, w):
+    """least s with (a - 1)^s = 0 (mod 2^w) (Knuth 3.2.1.3): how thoroughly the multiplier mixes the low w bits of the
+    state; 1 means those bits merely count up by C"""
+    d = (a - 1) % (1 << w)
+    if d == 0:
+        return 1
+    v = (d & -d).bit_length() - 1
+    return -(-w // v) if v else 10 ** 9
+
+
+def rule_lcg(col, rand_crate, rid, consts_from=None, low_bits=()):
     """the state transition of the linear congruential generator is the full-period affine map on all 64 bits:
     next_raw stores state' = state * A + C (wrapping, nothing masked or shifted away) and returns that state; the
     instantiation(s) in use satisfy Hull-Dobell for modulus 2^64 (A = 1 mod 4, C odd).  A shorter state (a mask, a
@@ -505,6 +517,14 @@ def rule_lcg(col, rand_crate, rid, consts_from=None):
             col.ok(rid, b.loc(), key, "A = %d = 1 (mod 4), C = %d odd (%s): period 2^64" % (a_, c_, where))
         else:
             col.violation(rid, "lcg|hull-dobell", b.loc(), "A = %d, C = %d (%s) do not satisfy A = 1 (mod 4) and C odd: the generator does not have full period" % (a_, c_, where))
+        # the low w bits of the state are themselves an LCG with multiplier A mod 2^w: its potency must not collapse
+        for w in (64,) + tuple(low_bits):
+            s_ = _potency(a_, w)
+            key = "lcg|potency|%d|%d" % (a_, w)
+            if s_ >= 5:
+                col.ok(rid, b.loc(), key, "potency of A on the low %d bits is %d (>= 5)" % (w, s_))
+            else:
+                col.violation(rid, "lcg|potency|%d" % w, b.loc(), "A = %d (%s) has potency %d on the low %d bits of the state (A - 1 is divisible by 2^%d): those bits are (close to) a counter stepping by C, consecutive draws taken from them are monotone" % (a_, where, s_, w, ((a_ - 1) % (1 << w) & -((a_ - 1) % (1 << w))).bit_length() - 1 if (a_ - 1) % (1 << w) else w))
 
 
 def _tfunction(t):
